@@ -170,7 +170,7 @@ type single struct {
 }
 
 func Run(c *core.Ctx) {
-	c.Rule = "a case is (document, content change); exhaustive: every document over {a, LF} up to the tier's length x every range start<=end with lines and columns 0..len+1 x {\"\", x, LF, x LF y, LF LF}; random: documents up to ~3000 bytes and histories up to 200 changes mixing inserts, deletes, multi-line replacements, edits at 0:0 and at the end, positions beyond line/document end (up to 2^32-1), full replaces and re-opens; server: the same through Server.DidOpen/DidChange with a stub gopls. Distinct non-trivial = distinct (document, change) pairs whose change is not a no-op"
+	c.Rule = "a case is (document, content change); exhaustive: every document over {a, LF} up to the tier's length x every range start<=end with lines and columns 0..len+1 x {\"\", x, LF, x LF y, LF LF}; random: documents up to ~3000 bytes and histories up to 200 changes mixing inserts, deletes, multi-line replacements, edits at 0:0 and at the end, positions beyond line/document end (up to 2^32-1), full replaces and re-opens; server: the same through Server.DidOpen/DidChange with a stub gopls; wire: the editor's notifications as JSON-RPC frames through protocol.NewServer (stream, conn, Handlers, serverDispatch decoding) into the proxy Server - every sequence of up to 3 (4 thorough) letters of a 15-letter alphabet (ranged edits and full texts with the range member absent or null, towards parseable and unparseable versions, multi-change notifications, didClose/didOpen, a second document) and random sessions of up to 31 notifications over two documents with rangeLength, unknown members and member orders varied. Distinct non-trivial = distinct (document, change) pairs whose change is not a no-op"
 	c.Trusted = append(c.Trusted,
 		"specification spec/Splice.v (position -> byte offset by walking the text, clamp, splice); columns are bytes",
 		"extraction: ExtrOcamlBasic only; ocaml/driver.ml (hex line protocol)",
@@ -186,6 +186,7 @@ func Run(c *core.Ctx) {
 	pairs(c)
 	histories(c)
 	server(c)
+	wire(c)
 }
 
 // selfTest: the extracted model with the pre-9226857 predicate differs from the extracted specification on the
